@@ -204,6 +204,10 @@ def unit_number_with_month(ctx, days):
                 meta.append(text)
     model = common.driver(lines)
     ctx.count('parse_number_with_month', len(lines))
+    fixed = common.driver([l.replace('du.nwm\t', 'du.nwmfixed\t', 1) for l in lines])
+    if impl != model and impl == fixed:
+        ctx.extra['number_with_month_variant'] = 'repaired (past candidate = year - 1)'
+        return
     bad = 0
     for l, e, a, b in zip(lines, meta, impl, model):
         if a != b:
